@@ -348,15 +348,15 @@ QLookup(g, req, p, name) ==
                         NoAdd, NoAdd, Only(g, SeqSet(req)))
        /\ UNCHANGED primary
 
+MHas(g, req, p) ==
+    \E x \in CacheSeen(mcache, g) : x.req = req /\ x.prov = p
 MHit(g, req, p) ==
-    LET c == {x \in CacheSeen(mcache, g) : x.req = req /\ x.prov = p}
-    IN IF c = {} THEN MISS ELSE (CHOOSE x \in c : TRUE).res
+    (CHOOSE x \in CacheSeen(mcache, g) : x.req = req /\ x.prov = p).res
 LookupAllResult(g, req, p) ==
-    LET h == MHit(g, req, p)
-    IN IF h # MISS THEN h ELSE UncachedLookupAll(RoSeen(g), req, p)
+    IF MHas(g, req, p) THEN MHit(g, req, p)
+    ELSE UncachedLookupAll(RoSeen(g), req, p)
 QLookupAll(g, req, p) ==
-    LET h == MHit(g, req, p)
-    IN /\ IF h # MISS
+    /\ IF MHas(g, req, p)
              THEN Touch(VerifyG(g), {}, rbases, {}, NoAdd, NoAdd, NoAdd, NoAdd)
              ELSE Touch(VerifyG(g), {}, rbases, {}, NoAdd,
                         Only(g, {[req |-> req, prov |-> p,
@@ -364,15 +364,15 @@ QLookupAll(g, req, p) ==
                         NoAdd, Only(g, SeqSet(req)))
        /\ UNCHANGED primary
 
+SHas(g, req, p) ==
+    \E x \in CacheSeen(scache, g) : x.req = req /\ x.prov = p
 SHit(g, req, p) ==
-    LET c == {x \in CacheSeen(scache, g) : x.req = req /\ x.prov = p}
-    IN IF c = {} THEN MISS ELSE (CHOOSE x \in c : TRUE).res
+    (CHOOSE x \in CacheSeen(scache, g) : x.req = req /\ x.prov = p).res
 SubsResult(g, req, p) ==
-    LET h == SHit(g, req, p)
-    IN IF h # MISS THEN h ELSE UncachedSubs(RoSeen(g), req, p)
+    IF SHas(g, req, p) THEN SHit(g, req, p)
+    ELSE UncachedSubs(RoSeen(g), req, p)
 QSubs(g, req, p) ==
-    LET h == SHit(g, req, p)
-    IN /\ IF h # MISS
+    /\ IF SHas(g, req, p)
              THEN Touch(VerifyG(g), {}, rbases, {}, NoAdd, NoAdd, NoAdd, NoAdd)
              ELSE Touch(VerifyG(g), {}, rbases, {}, NoAdd, NoAdd,
                         Only(g, {[req |-> req, prov |-> p,
